@@ -723,13 +723,28 @@ def check_C17(ctx):
         env = {}
         if rng.random() < 0.4:
             env = {"E1": "1", "EA": "2"}       # the default shown stays the declared one
-        cases.append({"op": "run", "env": env, "version": None, "root": root, "argv": path + [rng.choice(["-h", "--help"])]})
+        # "the help of any command": also when it is printed a second time by the same application. Only for
+        # trees whose sub-commands declare nothing: a sub-command's initialiser runs again at every Run and
+        # would declare its variables twice (outside every property: C20 speaks of rebuilt applications)
+        def bare(c):
+            return all(not s["decls"] and bare(s) for s in c["subs"])
+        cases.append({"op": "run", "env": env, "version": None, "root": root, "argv": path + [rng.choice(["-h", "--help"])],
+                      "repeat": 2 if bare(root) and rng.random() < 0.5 else 1})
         meta.append((cmds, True))
         for d in core.all_decls(root):
             if d["kind"] in ("float", "floats"):
                 floats.update(d["def"])
             if d["kind"] in ("int", "ints", "bool"):
                 floats.update(d["def"])
+    # hidden and visible sub-commands in every order, help printed twice by the same application
+    for _ in range(ctx.scale(60, 600)):
+        names = rng.sample(gen.ALIAS_POOL, rng.randint(2, 4))
+        subs = [gen.mkcmd(n, hidden=rng.random() < 0.5, desc="d " + n.split()[0]) for n in names]
+        for sc in subs:
+            sc["action"] = {"k": "ret"}
+        root = gen.mkcmd("app", decls=[], subs=subs, policy=0)
+        cases.append({"op": "run", "env": {}, "version": None, "root": root, "argv": [rng.choice(["-h", "--help"])], "repeat": 2})
+        meta.append(([root], True))
     res = correspond(ctx, cases, ["outcome", "trace", "stderr"], "declaration trees, long help")
     tbl = core.oracle(floats | {"true", "false"})
     for c, (cmds, long) in zip(cases, meta):
